@@ -1034,16 +1034,6 @@ func genCores(r *rand.Rand, scale int, emit func(string)) {
 	for c := 0; c <= 20; c++ {
 		emit(fmt.Sprintf("hst %d", c))
 	}
-	// close reason truncation (valid UTF-8 messages around the 123-byte limit)
-	runes := []string{"a", "é", "€", "😀", " ", "\""}
-	for i := 0; i < 120*scale; i++ {
-		var sb strings.Builder
-		want := common.Pick(r, []int{0, 5, 100, 118, 120, 121, 122, 123, 124, 125, 126, 127, 130, 200, 400})
-		for sb.Len() < want {
-			sb.WriteString(common.Pick(r, runes))
-		}
-		emit("wstrunc " + hx(sb.String()))
-	}
 	// traverseFieldPath
 	elems := []string{"f_nested", "o_nested", "w_ts", "w_struct", "w_any", "f_string", "f_int32", "f_enum", "o_string", "p_int32", "r_nested", "r_int32", "m_ss", "m_sn",
 		"child", "name", "n", "color", "tags", "seconds", "nanos", "type_url", "value", "fields", "zzz", "fNested", "F_NESTED", "", "*"}
